@@ -1,0 +1,15 @@
+//go:build verif
+
+// Contracts for gzv (contract-based deductive verification, /verif). Comment-only file:
+// it contributes nothing to any build; the //@ lines are read by /verif/bin/gzv.
+package collection
+
+//@ spec wait(s int, p int, n int) int = (s - p - 1 + n) % n + 1
+
+//@ func (tw *TimingWheel) getPositionAndCircle
+//@   property C12
+//@   requires tw.numSlots >= 1 && 0 <= tw.tickedPos && tw.tickedPos < tw.numSlots
+//@   requires tw.interval > 0 && d >= tw.interval
+//@   ensures  0 <= pos && pos < tw.numSlots && circle >= 0
+//@   ensures  wait(pos, tw.tickedPos, tw.numSlots) + circle*tw.numSlots == int(d / tw.interval)
+//@   modifies nothing
